@@ -288,7 +288,7 @@ def concurrency(root, m, entry, nwriters, expected, thorough):
     for r in readers:
         r.start()
     procs = []
-    rounds = 6 if thorough else 3
+    rounds = 8 if thorough else 4
     for rnd in range(rounds):
         procs = []
         for w in range(nwriters):
@@ -297,8 +297,13 @@ def concurrency(root, m, entry, nwriters, expected, thorough):
             with open(inp, "w") as f:
                 f.write(src)
             os.utime(inp, (time.time(), time.time()))
-            delay = 2000 * (1 + (w * 7 + rnd) % 5)
-            cmd = ["strace", "-f", "-o", "/dev/null", "-e", "trace=write,renameat,openat", f"--inject=write:delay_exit={delay}", f"--inject=renameat:delay_enter={delay * 2}"] + child_cmd(entry, inp, out)
+            # injected delays at the suspension points between the critical steps (after the temporary file is opened and
+            # before it is written; after it is written; before the rename), different for every writer and round
+            k = (w * 7 + rnd * 3) % 5
+            d_before_write = 3000 * ((k + rnd) % 4)
+            d_after_write = 2000 * (1 + k)
+            d_before_rename = 2500 * ((w + 2 * rnd) % 5)
+            cmd = ["strace", "-f", "-o", "/dev/null", "-e", "trace=write,renameat,openat", f"--inject=write:delay_enter={d_before_write}:delay_exit={d_after_write}", f"--inject=renameat:delay_enter={d_before_rename}"] + child_cmd(entry, inp, out)
             procs.append(subprocess.Popen(cmd, env=child_env(entry), stdout=subprocess.PIPE, stderr=subprocess.PIPE, text=True))
         for p in procs:
             p.communicate(timeout=120)
